@@ -1,0 +1,8 @@
+//go:build verif
+
+package transforms
+
+// Verification hooks: the unexported float64 kernels.
+
+func VerifForwardDCT64(input []float64)  { forwardDCT64(input) }
+func VerifForwardDCT256(input []float64) { forwardDCT256(input) }
